@@ -45,10 +45,14 @@ thread_local! {
     static CAPTURING: RefCell<u32> = const { RefCell::new(0) };
 }
 
+/// > 0 while some check expects panics on threads whose thread-locals may already be gone (keeps stderr quiet)
+pub static QUIET_ALL: std::sync::atomic::AtomicUsize = std::sync::atomic::AtomicUsize::new(0);
+
 pub fn install_panic_hook() {
     let default = std::panic::take_hook();
     std::panic::set_hook(Box::new(move |info| {
-        let capturing = CAPTURING.with(|c| *c.borrow() > 0);
+        // (try_with: a panic may be raised while this thread's thread-locals are being destroyed)
+        let capturing = CAPTURING.try_with(|c| *c.borrow() > 0).unwrap_or(false) || QUIET_ALL.load(std::sync::atomic::Ordering::Relaxed) > 0;
         if capturing {
             let loc = info
                 .location()
@@ -61,7 +65,7 @@ pub fn install_panic_hook() {
             } else {
                 "<non-string panic>".into()
             };
-            LAST_PANIC.with(|p| *p.borrow_mut() = Some(format!("{msg} @ {loc}")));
+            let _ = LAST_PANIC.try_with(|p| *p.borrow_mut() = Some(format!("{msg} @ {loc}")));
         } else {
             default(info);
         }
